@@ -5,8 +5,8 @@ import (
 	"go/token"
 	"go/types"
 
-	"golang.org/x/tools/go/types/typeutil"
 	"fmt"
+	"golang.org/x/tools/go/types/typeutil"
 	"os"
 	"strings"
 )
